@@ -295,6 +295,10 @@ def run(tier, seed, t0):
             c11_loop.analyse(e3, sc)
         except _e3.ENC_ERRORS as ex:
             e3.error(sc.name, "MIR->SMT encoding of run_transport's event loop", ex)
+    try:
+        c11_loop.analyse_wake(e3, c11_loop.WAKE)
+    except _e3.ENC_ERRORS as ex:
+        e3.error("c11_wake_protocol", "MIR->SMT encoding of the wake-up protocol of the TCP exporter", ex)
     finish("C11", tier, seed, list(e3.res.obligations), t0, ASSUME + ["E3 callee models: " + ", ".join(sorted(e3.models))], sorted(e3.functions),
            explanation="MIR->SMT encoding of the start-up path of the TCP exporter's transport thread over every buffer configuration")
 
